@@ -102,6 +102,16 @@ def make_case(rng, i, tier):
     if i % 4 == 3:
         again = [{"op": rng.choice(["transpose", "scale", "set_channel", "iter_rel_velocity_edit", "pad", "add_note"]),
                   "k": rng.choice([1, 2, -3, 5]), "s": rng.randrange(len(seqs))} for _ in range(rng.randint(1, 2))]
+    if i % 6 == 4 and len(seqs) >= 2:
+        # every track restates the piece's signatures (as Composition / bar-wise output does): the same signature, same values, on
+        # the same tick > 0 in several saved sequences, often right after a rest
+        sig = [e for sp in seqs for e in sp["extra"] if e[0] in ("ts", "ks") and e[1] > 0][:2]
+        if not sig and not any(e[0] == "ts" for sp in seqs for e in sp["extra"]):
+            sig = [["ts", 48 + 24 * (i % 5), 3, 4]]
+        for e in sig:
+            for sp in seqs:
+                if not any(x[0] == e[0] and x[1] == e[1] for x in sp["extra"]):
+                    sp["extra"].append(list(e))
     if i % 9 == 4:
         # "integer-tick" sequences whose ticks are numpy integers (onsets computed with np.arange / np.cumsum)
         for sp in seqs:
